@@ -541,7 +541,7 @@ func c05ParDir(rc *RuleCtx) {
 }
 
 func init() {
-	register(&Rule{ID: "C01.rootkey", Floor: 30, Also: []string{"C14", "C05"},
+	register(&Rule{ID: "C01.rootkey", Floor: 30, Also: []string{"C14", "C05", "C17"},
 		Text: "OrefaFS registers the root directory of a volume under the volume name (the absolute path without its trailing separator), which Abs never returns: every key of the path index is produced by absKey (Abs, then the root's separator removed), by SplitAbs / concatenation of such keys, or by ranging over the index - never by a raw Abs result, under which the root directory cannot be found (Stat, Chdir, ReadDir and WalkDir of \"/\" fail, Mkdir(\"/\") creates a second root)",
 		Run:  c01RootKey})
 }
@@ -1431,7 +1431,7 @@ func c16Pool(rc *RuleCtx) {
 }
 
 func init() {
-	register(&Rule{ID: "C01.cwd", Floor: 6, Also: []string{"C07", "C11", "C17"},
+	register(&Rule{ID: "C01.cwd", Floor: 6, Also: []string{"C07", "C11", "C17", "C03", "C04"},
 		Text: "a fresh MemFS / OrefaFS has a working directory: the constructor calls SetCurDir with the root of the default volume (a non-empty constant, or the volume name followed by the separator) - with an empty working directory a relative path is not made absolute, the walk skips its first byte (Mkdir(\"foo\") creates /oo) and Stat(\"\") panics; every other SetCurDir of the two packages (Chdir of the file system and of an open directory) hands over an absolute path: Path() of the walk's iterator, the first result of Abs, or a handle field assigned only such values - never the name a handle was opened with, nor an index key",
 		Run:  c01Cwd})
 }
@@ -1520,6 +1520,27 @@ func c01Cwd(rc *RuleCtx) {
 						}
 						if mayFail && feasiblyReaches(ci, r, 4000) {
 							rc.bad(cons, ci.Pos(), "after the working directory was set the call can still return an error ("+rc.C.pos(r.Pos())+"): a refused Chdir has moved the working directory")
+							return
+						}
+					}
+				}
+				// an open directory knows its path from the time it was opened: a path computed from its name when Chdir is
+				// called is resolved against whatever the working directory is by then, and keeps the links of the name
+				if g.Signature.Recv() != nil {
+					if rn := namedOf(g.Signature.Recv().Type()); rn != nil && strings.HasSuffix(rn.Obj().Name(), "File") {
+						fromField := true
+						for _, o := range originsOf(a[0]) {
+							ld, isLd := o.(*ssa.UnOp)
+							if !isLd || ld.Op != token.MUL {
+								fromField = false
+								continue
+							}
+							if _, isFA := ld.X.(*ssa.FieldAddr); !isFA {
+								fromField = false
+							}
+						}
+						if !fromField {
+							rc.bad(cons, ci.Pos(), "an open directory sets the working directory to a path computed when Chdir is called instead of the path recorded when it was opened: a name opened relative to another working directory, or through a symbolic link, gives a working directory that is not the directory the handle is open on")
 							return
 						}
 					}
